@@ -428,7 +428,7 @@ func init() {
 		HSpec{Pkg: swapPkg, Func: "VerifHarness_C13_MintBurn", Tier: "quick", Opts: gosym.HarnessOpts{Backends: nia}, Bounds: "unbounded positive integers"},
 		HSpec{Pkg: swapPkg, Func: "VerifHarness_C13_BurnShare", Tier: "quick", Opts: gosym.HarnessOpts{Backends: nia}, Bounds: "unbounded positive integers"},
 		HSpec{Pkg: swapPkg, Func: "VerifHarness_C13_CreateLocksBound", Tier: "quick", Opts: gosym.HarnessOpts{Backends: nia}, Bounds: "unbounded positive integers; sqrt by contract"},
-		HSpec{Pkg: swapPkg, Func: "VerifHarness_C13_SellWithOrders", Tier: "quick", Configs: []map[string]int64{cfg("orders", 0), cfg("orders", 1)}, Bounds: "concrete pool 10000/10000 BIP and concrete resting orders; taker amount symbolic in (0, 100000 BIP]"},
+		HSpec{Pkg: swapPkg, Func: "VerifHarness_C13_SellWithOrders", Tier: "quick", Configs: []map[string]int64{cfg("orders", 0), cfg("orders", 1), cfg("orders", 1, "skew", 1)}, Bounds: "concrete pool 10000/10000 BIP (or, skew, 1000000/1000 with one order at price 1010) and concrete resting orders; taker amount symbolic in (0, 100000 BIP]"},
 		HSpec{Pkg: swapPkg, Func: "VerifHarness_C13_SellWithOrders", Tier: "thorough", Configs: []map[string]int64{cfg("orders", 2)}, Bounds: "as above with two order levels"})
 
 	// ---------------------------------------------------------- C16 transaction side (Unbond, MoveStake, Lock, Delegate)
